@@ -196,6 +196,13 @@ def run(tier, seed):
             for d3 in range(1, 253)
             for d2, d1, d0 in itertools.product(digs, repeat=3)
         ]
+        # digit table: every digit value at every digit position, the other digits over {0, 1, 126, 252}
+        for pos in range(4):
+            for v in range(253):
+                for others in itertools.product((0, 1, 126, 252), repeat=3):
+                    ds = list(others)
+                    ds.insert(pos, v)
+                    explicit.append(ds[0] + ds[1] * P1 + ds[2] * P2 + ds[3] * P3)
         for m in range(1, 253):
             explicit.extend(range(m * P3 - 300, m * P3 + 300))
         explicit.extend(range(P4 - 600, P4))
